@@ -362,7 +362,13 @@ class Renderer:
 
     def stmt_text(self, anchor, *args):
         """text of statement-level sections (proof blocks, ghost lets) for an anchor"""
-        return "".join("\n" + self.mark(s) + "\n" for s in self.secs(anchor, *args))
+        txt = "".join("\n" + self.mark(s) + "\n" for s in self.secs(anchor, *args))
+        if self.ctx.probe and ((anchor == "entry" and not args) or (anchor == "loop" and len(args) == 2 and args[1] == "body_entry")):
+            # vacuity probe: this assertion must FAIL; if it verifies, the precondition / loop invariant is contradictory
+            pid = "%s#probe.%s" % (self.fn.key, "entry" if anchor == "entry" else "loop" + args[0])
+            self.ctx.probes.append(pid)
+            txt += "\n/*<%s>*/\nproof { assert(false); }\n/*</%s>*/\n" % (pid, pid)
+        return txt
 
     # -- generic node rendering: source text with rendered children in place
     def render_children(self, n, a=None, b=None):
@@ -875,6 +881,8 @@ class Renderer:
 class Ctx:
     def __init__(self):
         self.clauses = {}
+        self.probe = False
+        self.probes = []
 
     def into_iter_fn(self, fn, k, it_text):
         # user iterators (generic IntoIterator) keep the trait call; the overlay can override
@@ -989,7 +997,7 @@ def synth_fn(key, rec, impls, ctx, table, by_mod):
     by_mod.setdefault(mod, []).append((sub, text, False))
 
 
-def generate(outdir, stub=None):
+def generate(outdir, stub=None, probe=False):
     stub = stub or {}
     os.makedirs(outdir, exist_ok=True)
     srcs = run_pqx()
@@ -998,6 +1006,7 @@ def generate(outdir, stub=None):
     ovs = sorted(os.path.join(ovdir, f) for f in os.listdir(ovdir) if f.endswith(".ov"))
     recs, mods_extra, order = parse_overlay(ovs)
     ctx = Ctx()
+    ctx.probe = probe
     ctx.assoc = {}
     for src, mod, im in impls:
         tyname = re.sub(r"<.*", "", compact(im["self_ty_text"]))
@@ -1152,7 +1161,7 @@ def generate(outdir, stub=None):
         if e < 0:
             die("internal: unbalanced marker " + cid)
         spans.append({"id": cid, "fn": bool(m.group(1)), "start": m.start(), "end": e + len(close)})
-    json.dump({"functions": table, "clauses": ctx.clauses, "spans": spans, "without_record": missing,
+    json.dump({"functions": table, "clauses": ctx.clauses, "spans": spans, "without_record": missing, "probes": ctx.probes,
                "repo_head": subprocess.run(["git", "-C", REPO, "rev-parse", "HEAD"], capture_output=True, text=True).stdout.strip()},
               open(os.path.join(outdir, "map.json"), "w"), indent=1)
     return path
